@@ -569,14 +569,18 @@ func (jb *joinBase) setReqCols(req Require) {
 // They must not be passed on to the sources or used to choose between
 // Lookup and the Select fallback because the sources were not set up for them.
 func (jb *joinBase) reqSels(sels Sels) Sels {
-	if jb.reqCols == nil {
+	return reqSels(jb.reqCols, sels)
+}
+
+func reqSels(reqCols []string, sels Sels) Sels {
+	if reqCols == nil {
 		return sels
 	}
 	for i, sel := range sels {
-		if !slices.Contains(jb.reqCols, sel.col) {
+		if !slices.Contains(reqCols, sel.col) {
 			result := slices.Clone(sels[:i])
 			for _, sel := range sels[i+1:] {
-				if slices.Contains(jb.reqCols, sel.col) {
+				if slices.Contains(reqCols, sel.col) {
 					result = append(result, sel)
 				}
 			}
